@@ -345,6 +345,33 @@ def layer_keywords_everywhere():
             yield ("K", (kw, "all"), c01.skeleton(kw, kw, kw, kw, kw + "2"), 1e-8)
 
 
+UNENCODABLE = ("caf\ud83d", "\udc80x", "a\udfffb")      # lone surrogates: a Python str can hold them (json.loads of a broken escape, surrogateescape), UTF-8 cannot
+
+
+def check_unencodable(case):
+    """text that the file's encoding cannot represent: save() either refuses, or writes a file that says what the textgrid says - it never writes
+    something else in its place"""
+    lab, pos, fmt, blanks = case
+    from praatio import textgrid as _tgmod
+    sk = c01.skeleton(l1=lab) if pos == "ilabel" else c01.skeleton(pm=lab) if pos == "plabel" else c01.skeleton(iname=lab)
+    tg = c01.build(sk)
+    fn = os.path.join(scratch_dir(), "c02-unencodable.TextGrid")
+    if os.path.exists(fn):
+        os.remove(fn)
+    st, r, _ = call(tg.save, fn, fmt, blanks, None, None, 1e-8, "silence")
+    if st == "exc":
+        return 1, "refused", (pos, fmt), []
+    st2, back, _ = call(_tgmod.openTextgrid, fn, True, "silence")
+    if st2 == "exc":
+        return 2, "!", None, [Viol("unencodable-text-written-as-something-else", f"save({fmt}, includeBlankSpaces={blanks}) of a textgrid whose {pos} is {lab!r} returned "
+                                                                                f"normally, but the file cannot be opened: {back!r}")]
+    texts = [t.name for t in back.tiers] + [e[-1] for t in back.tiers for e in t.entries]
+    if lab not in texts:
+        return 2, "!", None, [Viol("unencodable-text-written-as-something-else", f"save({fmt}, includeBlankSpaces={blanks}) of a textgrid whose {pos} is {lab!r} returned "
+                                                                                f"normally; the file says {[x for x in texts if x not in ('y', 'z', 'w', 't', 'p', '')]!r} instead")]
+    return 2, "written", (pos, fmt), []
+
+
 def parts(tier):
     quick = tier == "quick"
     L = 3 if quick else 5
@@ -382,6 +409,11 @@ def parts(tier):
                   rule="all sets of <= 3 (thorough 4) labelled intervals on the grid %s, threshold 0.3 (thorough also 0.8): sub-threshold intervals and "
                        "gaps at the start, in the middle and at the end of one tier at the same time x the same overrides and oracles" % (FINE,),
                   bounds={"grid": len(FINE)}, snippet=c01._snippet, chunk=8),
+        InputPart("text-the-encoding-cannot-represent", lambda: ((lab, pos, fmt, b) for lab in UNENCODABLE for pos in ("ilabel", "plabel", "name")
+                                                               for fmt in ("short_textgrid", "long_textgrid", "json", "textgrid_json") for b in (True, False)),
+                  check_unencodable,
+                  rule="labels and tier names holding a lone surrogate (text UTF-8 cannot encode) x 4 formats x includeBlankSpaces: save() raises, or the file it "
+                       "writes opens to the same text - never to other text", bounds={}, chunk=4),
         c01.residue_part(quick),
         InputPart("labels-unicode-forms", c01.layer_unicode_forms, check,
                   rule="the %d non-NFC / case-folding-sensitive / canonically equivalent strings of C01 as labels and tier names: written code point for "
